@@ -1101,8 +1101,14 @@ pub fn gen_world(tape: &mut Tape, cfg: &GenCfg) -> World {
           && tape.draw(Stream::World, 10) == 9
         {
           let t = &targets[tape.draw(Stream::World, targets.len() as u32) as usize];
-          it.types_pragma =
-            Some((tape.draw(Stream::World, 2) == 0, rel_or_abs(tape, url, t)));
+          let ts_types = tape.draw(Stream::World, 2) == 0;
+          let text = if tape.draw(Stream::World, 5) == 4 {
+            // a types specifier that does not resolve (bare, no import map)
+            format!("types/t{}.d.ts", d.items.len())
+          } else {
+            rel_or_abs(tape, url, t)
+          };
+          it.types_pragma = Some((ts_types, text));
         }
         d.items.push(it);
       }
